@@ -160,64 +160,70 @@ def _one(ctx, binary, scripts, name, env, timeout):
     return events, done, out, _read_progress(pp)
 
 
+def _same_request_labels(scripts, rpc, a, via):
+    """labels of every step that sends the same request shape the same way (skipped once one of them killed the process)"""
+    out = set()
+    for sc in scripts:
+        for i, st in enumerate(sc["steps"]):
+            sa = st.get("a", {})
+            if st["act"] == rpc and (sa.get("k"), sa.get("p")) == (a.get("k"), a.get("p")) and (via == "grpc" or sa.get("s") == a.get("s")):
+                out.add("%d:%d%s" % (sc["id"], i, ":grpc" if via == "grpc" else ""))
+    return out
+
+
 def _drive(ctx, binary, scripts, timeout=2400):
-    """Run all scripts.  A driver that dies is a violation candidate: the in-flight calls are re-run
-    alone, first under recover (a recovered panic is then an ordinary recorded event), then through
-    gRPC; a death that reproduces is attributed to the call as a `crash` event; one that cannot be
-    attributed is an infrastructure error."""
+    """Run all scripts.  A driver that dies is a violation candidate: each call that was in flight is
+    re-run alone in a fresh process (the script up to that call; a call that was going through gRPC is the
+    only one sent through gRPC).  A death that reproduces is attributed to the call the re-run died in and
+    recorded as a `crash` event of that script; a death no re-run reproduces is an infrastructure error."""
     byid = {s["id"]: s for s in scripts}
-    blocks, skip, deaths = {}, set(), 0
+    blocks, skip, deaths, crashes = {}, set(), 0, {}
     todo = list(scripts)
     rnd = 0
     while todo:
         rnd += 1
-        env = {"VERIF_SKIP": ",".join(sorted(skip))}
-        events, done, out, prog = _one(ctx, binary, todo, "run%d" % rnd, env, timeout)
+        events, done, out, prog = _one(ctx, binary, todo, "run%d" % rnd, {"VERIF_SKIP": ",".join(sorted(skip))}, timeout)
         for bid, evs in vf.split_traces(events):
             blocks[bid] = evs
         if done:
             break
         deaths += 1
+        vf.log("driver died (round %d); in flight: %s" % (rnd, prog))
         if deaths > MAX_DEATHS:
             ctx.extra["incomplete"] = "driver died %d times; %d scripts not executed" % (deaths, len([s for s in todo if s["id"] not in blocks]))
             break
-        vf.log("driver died (round %d); in flight: %s" % (rnd, prog))
         attributed = False
         for c in [p for p in prog if p["step"] >= 0]:
             sc = byid[c["sid"]]
-            label = "%d:%d" % (c["sid"], c["step"]) + (":grpc" if c["via"] == "grpc" else "")
-            crash = None
-            for mode in (["off"] if c["via"] == "direct" else ["off", "all"]):
-                # cut the script after the suspect step so that the re-run is short
-                cut = dict(sc, steps=sc["steps"][:c["step"] + 1])
-                ev2, done2, out2, prog2 = _one(ctx, binary, [cut], "attr%d_%s_%s" % (rnd, label.replace(":", "_"), mode),
-                                               {"VERIF_WORKERS": "1", "VERIF_GRPC": mode, "VERIF_SKIP": ",".join(sorted(skip))}, 900)
-                if done2:
-                    evs = [e for e in ev2 if e.get("ev") != "reset"]
-                    if evs and evs[-1].get("out") == "panic" and evs[-1].get("i") == c["step"]:
-                        attributed = True   # the main loop will record it as an ordinary panic once the step stops killing the process
-                    continue
-                at = [p for p in prog2 if p["step"] == c["step"]]
-                if at:
-                    st = sc["steps"][c["step"]]
-                    a = st.get("a", {})
-                    crash = {"ev": "crash", "i": c["step"], "rpc": st["act"], "k": a.get("k", "-"), "p": a.get("p", "-"),
-                             "s": a.get("s", "-"), "via": at[0]["via"], "out": "crash", "code": "process died",
-                             "site": "?", "stack": _panic_text(out2), "n": 0,
-                             "pre": (ev2[-1].get("st") if ev2 and "st" in ev2[-1] else {"acct": True, "gm": True, "gc": True}),
-                             "st": {}}
-                    break
-            if crash:
-                attributed = True
-                skip.add(label if crash["via"] == "grpc" else "%d:%d" % (c["sid"], c["step"]))
-                ctx.extra.setdefault("crashes", []).append({"script": c["sid"], "step": c["step"], "via": crash["via"], "rpc": crash["rpc"]})
-                byid[c["sid"]].setdefault("_crash", []).append(crash)
+            cut = dict(sc, steps=sc["steps"][:c["step"] + 1])
+            mode = ("only:%d:%d" % (c["sid"], c["step"])) if c["via"] == "grpc" else "off"
+            ev2, done2, out2, prog2 = _one(ctx, binary, [cut], "attr%d_%d_%d_%s" % (rnd, c["sid"], c["step"], c["via"]),
+                                           {"VERIF_WORKERS": "1", "VERIF_GRPC": mode, "VERIF_SKIP": ",".join(sorted(skip))}, 900)
+            if done2:
+                continue          # this call alone does not kill the process
+            at = [p for p in prog2 if p["step"] >= 0]
+            if not at:
+                continue
+            at = at[0]
+            st = sc["steps"][at["step"]]
+            a = st.get("a", {})
+            calls = [e for e in ev2 if e.get("ev") == "rpc"]
+            crash = {"ev": "crash", "i": at["step"], "rpc": st["act"], "k": a.get("k", "-"), "p": a.get("p", "-"),
+                     "s": a.get("s", "-"), "via": at["via"], "out": "crash", "code": "process died", "n": 0,
+                     "site": "?", "stack": _panic_text(out2),
+                     "pre": calls[-1]["st"] if calls else {"acct": True, "gm": True, "gc": True}, "st": {}}
+            m = re.search(r"^(berty\.tech/weshnet/v2[^\s(]*)", "\n".join(l for l in out2[out2.find("goroutine "):].splitlines()), re.M)
+            if m:
+                crash["site"] = m.group(1).replace("berty.tech/weshnet/v2", "")
+            attributed = True
+            crashes.setdefault(c["sid"], []).append(crash)
+            skip |= _same_request_labels(scripts, st["act"], a, at["via"])
+            ctx.extra.setdefault("crashes", []).append({"script": c["sid"], "step": at["step"], "via": at["via"], "rpc": st["act"], "k": a.get("k"), "p": a.get("p")})
         if not attributed:
             raise vf.Infra("driver died and the death could not be attributed to a call (in flight: %s):\n%s" % (prog, _panic_text(out) or "\n".join(out.splitlines()[-30:])))
         todo = [s for s in todo if s["id"] not in blocks]
-    for s in scripts:
-        for cr in s.pop("_crash", []):
-            blocks.setdefault(s["id"], []).append(cr)
+    for sid, crs in crashes.items():
+        blocks.setdefault(sid, []).extend(crs)
     return blocks, deaths
 
 
@@ -295,6 +301,7 @@ def run(ctx, replay=None):
         if replay:
             rp = json.load(open(replay))
             scripts = [rp["script"]]
+            ctx.seed = int(rp.get("seed", ctx.seed))     # same concretisation classes, same seed
         else:
             scripts = _gen(ctx)
     finally:
